@@ -564,6 +564,7 @@ def run(res, args):
     ndiff = nor = ncrash = 0
     opcount, lenhist, retkinds, langs_hit, rows_hit = {}, {}, {}, set(), set()
     merges = skips = adjseen = extracts = maxnodes = 0
+    parsed_same = parsed_lines = second_same = 0
     # a harness process ends early after a line that lost memory (exit 77, the line itself is answered) or
     # on a sanitizer abort (the line is not answered): run what was left unanswered again, in small chunks
     for _ in range(6):
@@ -578,6 +579,7 @@ def run(res, args):
         if not got:
             break
     crashed = [i for i in range(len(lines)) if impl[i] is None]
+    own_rows = {str(L['id']): {(r[0], r[1], r[2]) for r in L['tags']} for L in V.langs}
     for i, ln in enumerate(lines):
         res.add_eval(ln)
         toks = ln.split()
@@ -598,8 +600,14 @@ def run(res, args):
                 if sg[2] != '0':
                     adjseen += 1
                 maxnodes = max(maxnodes, sg[3].count('E') + sg[3].count('T'))
-                for mt in re.finditer(r'Et\.(\d+)\.(\d+)\.', sg[3]):
-                    rows_hit.add((toks[1], mt.group(1), mt.group(2)))
+                for mt in re.finditer(r'Et\.(\d+)\.(\d+)\.([0-9a-f]+)', sg[3]):
+                    if (mt.group(3), int(mt.group(1)), int(mt.group(2))) in own_rows.get(toks[1], ()):
+                        rows_hit.add((toks[1], mt.group(1), mt.group(2), mt.group(3)))
+        if pf.get('P') and pf['P'][0] == '0':
+            parsed_lines += 1
+            parsed_same += ('x=1' in pf['P'] and 'w=1' in pf['P'])
+        if pf.get('T2') and pf['T2'][:1] == ['1'] and pf['T2'][2:3] == ['1'] and pf['T2'][4:5] == ['1']:
+            second_same += 1
         orc = oracle(ln, a, modes[i])
         pm = split_resp(m)
         if m is not None and pm[3].get('model_teardown') not in (None, 'live=0'):
@@ -704,6 +712,8 @@ def run(res, args):
         'languages_hit': len(langs_hit), 'languages_total': len(V.langs),
         'tag_rows_seen_in_trees': len(rows_hit), 'tag_rows_total_over_languages': nrows,
         'largest_tree_nodes': maxnodes, 'states_with_adjacent_text': adjseen,
+        'parsed_back_documents': parsed_lines, 'parsed_back_same_xml_and_wbxml': parsed_same,
+        'second_api_history_same_shape_xml_wbxml': second_same,
         'sanitizer_aborts': ncrash, 'histories_with_oracle_failures': nor, 'model_differences': ndiff,
         'suspect_classes': {k: len(v) for k, v in suspects.items()},
         'correspondence_seconds': round(elapsed, 1),
